@@ -1,4 +1,8 @@
 (* C06 — editing functions produce exactly the document the edit denotes. *)
+(* NOTE on the `*_m` statements in this file: `*_m` (Dispatch.v) is the view-level composition "decode, apply the tree
+   function, encode"; it is a specification device and is no longer what the correspondence check runs against the crate.
+   The statements tied to the Rust code are the ones about the offset-faithful walkers `*_w` below, which relate `*_w` on
+   encodings directly to the same tree functions `*_t`. *)
 From Coq Require Import List NArith ZArith Bool.
 Import ListNotations.
 From JB Require Import Constants Bytes Num Value Codec TreeOps SetOps Order RoundtripProofs Dispatch DispatchProofs MiscProofs.
